@@ -497,7 +497,7 @@ def run_threads(rep, tier, setname, what, keep=None):
             {"program": p.id, "dsl": p.meta.get("dsl"), "reference": p.meta.get("ref"), "execution": v, "mac_body": p.mac, "ref_body": p.ref, "engine": "E3-T",
              "tprog": {"depths": p.depths, "callers": p.callers, "check_threads": p.check_threads, "names": p.names, "pbound": p.pbound, "maxd": p.maxd},
              "unit_test": "// harness crate: #![no_std] extern crate vstd as std; (see vlib/e3t.py HEADER); replays ONE schedule with the scheduler, no explorer\nfn with_macro() -> String {\n%s\n}\n#[test]\nfn replay() {\n    vrt::set_inp(&%s);\n    let ex = vsched::run_one(with_macro, %s, &%s);\n    println!(\"{:?} {:?} deadlock={}\", ex.value, ex.log, ex.deadlock);\n    // expected (reference): value %s\n}\n"
-             % (p.mac, json.dumps(v["row"]), "None" if "None" in v["caller"] else "Some(%s)" % json.dumps(v["caller"].replace('Some("', "").replace('")', "")), json.dumps(v["schedule"]), json.dumps(v.get("reference_value")))},
+             % (p.mac, json.dumps(v["row"]), "None" if "None" in v["caller"] else "Some(%s)" % json.dumps(v["caller"].replace('Some("', "").replace('")', ""), ensure_ascii=False), json.dumps(v["schedule"]), json.dumps(v.get("reference_value")))},
         )
     for p in [q for q in progs if q.id in res.results][:: max(1, len(progs) // 3)][:3]:
         rep.sample({"dsl": p.meta.get("dsl"), "execution": res.results[p.id].get("sample"), "schedules": res.results[p.id]["executions"]})
